@@ -88,7 +88,7 @@ def main(run):
         "model: Lock/LockModel.v - lk_lock_func / lk_unlock_func transcribed by hand from "
         "src/coap_threadsafe.c (compared with the compiled functions step by step on every run)",
         "translator tools/regen_lock.py: C preprocessor (gcc -E) + a small statement parser / path "
-        "enumerator; exception tables API_EXCEPTIONS, CB_EXCEPTIONS, CB_INTERNAL (listed in notes/C13.md)",
+        "enumerator with guard tracking; tables CB_EXCEPTIONS, CB_INTERNAL (listed in notes/C13.md)",
         "harness/h_lock.c: ucontext coroutines, simulated mutex (ld --wrap pthread_mutex_lock/unlock/"
         "trylock on &global_lock.mutex, pthread_self); the API wrapper and the coap_io_process wait are "
         "transcribed in the driver (their shape in the tree is checked by the translator)",
@@ -237,7 +237,7 @@ def main(run):
         pred = vlib.run_lines(model, [], ["lkv gen " + ln[3:] for ln in lines[:ncorp]])[1][:ncorp]
         detail = "\n".join(diffs) + "\n\nmodel under the regenerated configuration, corpus:\n" + \
             "\n".join("%s -> %s" % (a, b) for a, b in zip(lines, pred)) + "\n\n" + \
-            json.dumps({"api_not_ok": [x for x in diag["api"]["not_ok"] if x["verdict"] != "exception"],
+            json.dumps({"api_not_ok": diag["api"]["bad"],
                         "callbacks_not_wrapped":
                         [s for s in diag["callbacks"]["not_wrapped"] if s["verdict"].startswith("UNWRAPPED")],
                         "callback_scan": {k: diag["callbacks"][k] for k in ("blind", "missing_types")}},
@@ -250,6 +250,8 @@ def main(run):
         for ln, co in zip(lines, oc):
             vlib.log("replay: %s\n  impl: %s" % (ln, co))
         if replay_stress:
-            lock_stress.stress(run, plan=replay_stress)
+            lock_stress.stress(run, plan=replay_stress, errpaths=False)
+        elif "errpaths" in open(run.replay).read():
+            lock_stress.stress(run, plan=[], errpaths=True)
         return
     lock_stress.stress(run)
